@@ -220,7 +220,7 @@ def cmd_run(pid, tier):
     evd = dict(property_id=pid, tier=tier, seed=int(os.environ.get("VERIF_SEED", "0") or 0), level=level,
                coverage=cov,
                assumptions=[
-                   "scheduling points are lock/cond/thread/epoll/sleep operations (plus atomics where stated); code between two points is atomic; "
+                   "scheduling points are lock/cond/thread/epoll/sleep operations and unlocks that make another thread runnable (plus atomics where stated); code between two points is atomic; "
                    "sequentially consistent memory",
                    "virtual clock; AF_UNIX delivery synchronous with write(); bounds and alphabets as listed per scenario",
                    "library built from /repo working tree with clang ASan+UBSan, RelWithDebInfo, -DNDEBUG",
@@ -228,6 +228,16 @@ def cmd_run(pid, tier):
                wall_s=round(time.time() - t0, 2), violations=nviol)
     with open(os.path.join(V, "evidence", f"{pid}.json"), "w") as f:
         json.dump(evd, f, indent=1)
+    # compact per-tier summary (kept for both tiers; RESULTS.md is generated from these)
+    os.makedirs(os.path.join(V, "results"), exist_ok=True)
+    with open(os.path.join(V, "results", f"{pid}_{tier}.json"), "w") as f:
+        json.dump(dict(property_id=pid, tier=tier, repo=subprocess.run(f"git -C {REPO} rev-parse --short HEAD", shell=True,
+                       capture_output=True, text=True).stdout.strip(),
+                       executions=R["executions"], choice_nodes=R["choice_nodes"], sched_steps=R["sched_steps"],
+                       bfs_states=R["bfs_states"], bfs_transitions=R["bfs_transitions"],
+                       fault_evaluations=R["fault_evaluations"], cases=R.get("cases", 0),
+                       exhaustive=bool(R["exhaustive"]), known=nknown, violations=nviol,
+                       wall_s=round(time.time() - t0, 1), scenarios=R["scenario_stats"]), f, indent=0)
     print(f"{pid} {tier}: executions={R['executions']} nodes={R['choice_nodes']} bfs_states={R['bfs_states']} "
           f"fault_evals={R['fault_evaluations']} exhaustive={R['exhaustive']} known={nknown} violations={nviol} "
           f"wall={time.time() - t0:.1f}s")
